@@ -155,7 +155,11 @@ func loadStore(st variable.Storer, vars map[string]mval) {
 	}
 }
 
-func runC02(c c02Case) Verdict {
+func runC02(c c02Case) Verdict { return decideC02(c, false) }
+
+// decideC02: with panicIsFailure the same comparison decides C06 for expressions (an ill-typed expression must be an
+// error, never a panic).
+func decideC02(c c02Case, panicIsFailure bool) Verdict {
 	c.fix()
 	// the same expression node is evaluated twice on one runner (the node jumps back to itself): the value of
 	// an expression must not depend on its having been evaluated before
@@ -188,7 +192,7 @@ func runC02(c c02Case) Verdict {
 			el, gotErr = dr.Next(0)
 		}()
 		if panicked != nil {
-			if wantErr != nil {
+			if wantErr != nil && !panicIsFailure {
 				// whether faults panic is C06's business; here only "an error, never a value" matters
 				return Verdict{Discard: "panic on an ill-typed expression (C06)"}
 			}
